@@ -78,7 +78,7 @@ CHECKS = {
             "DESIGN.md §4 C10 (a)"),
     "C18": ("exploration",
             "property-based testing (proptest): PROXY-v2 codec round trip against an independent byte-level reading of the specification; ExpectProxyProtocol driven over an in-memory socket at generated split points",
-            "Encoder output is read back by a hand-written specification reader and by the parser; arbitrary/near-miss byte strings must be accepted only when they hold a complete v2 header, consuming exactly 16 + declared length; ExpectProxyProtocol<FakeSocket> receives hand-built headers (all families, LOCAL/PROXY, TLV tails, malformed flavours) plus payload in generated read sizes with would-blocks and must upgrade exactly when the header is complete, with its addresses, and close on malformed input. A wire-lab sub-check runs one TCP session through a live worker per scenario (plain / send / expect / relay PROXY modes, generated payloads up to 256 KiB (thorough 4 MiB) each way, four generated I/O scripts with dribbles, pauses, read stalls and small socket buffers, hand-built incoming headers with TLV tails or malformed): both byte streams exact and in order, end-of-stream only after all bytes, exactly one well-formed header with the right addresses toward the backend; failures are re-run on a fresh worker and reported only when they reproduce.",
+            "Encoder output is read back by a hand-written specification reader and by the parser; arbitrary/near-miss byte strings must be accepted only when they hold a complete v2 header, consuming exactly 16 + declared length; ExpectProxyProtocol<FakeSocket> receives hand-built headers (all families, LOCAL/PROXY, TLV tails, malformed flavours) plus payload in generated read sizes with would-blocks and must upgrade exactly when the header is complete, with its addresses, and close on malformed input. A wire-lab sub-check runs one TCP session through a live worker per scenario (plain / send / expect / relay PROXY modes, generated payloads up to 256 KiB (thorough 4 MiB) each way, four generated I/O scripts with dribbles, pauses, read stalls and small socket buffers, hand-built incoming headers with TLV tails or malformed): both byte streams exact and in order, end-of-stream only after all bytes, exactly one well-formed header with the right addresses toward the backend; failures are re-run on a fresh worker and reported only when they reproduce. Sub-check corpus: hand-built PROXY-v2 headers under generated byte mutations through the byte-level oracle shared with the cargo-fuzz target ppv2 (bounded libFuzzer campaign in the thorough tier).",
             "Kernel segmentation and epoll order are shaped, not owned; closing is acknowledged (each side half-closes once everything arrived) because independent half-closes hit a known finding; the WebSocket-upgrade relay is not exercised; splice feature off.",
             "DESIGN.md §4 C18"),
     "C20": ("exploration",
